@@ -561,16 +561,40 @@ func checkClipEndpoints(ctx *Ctx, r *Report) {
 // the segment can be owned by the box - it reaches below Max on both axes and, on each axis,
 // either reaches above Min or lies exactly on Min - the clipper must be called.
 func checkClipPrefilter(ctx *Ctx, r *Report) {
-	fn := ctx.ssaFunc("sdf", "(*Box2).lineFilter")
-	if fn == nil {
-		r.undecided("W7", "Box2.lineFilter", 0, "not found")
+	// the functions that hand segments to the clipper: lineFilter, or whatever replaces it
+	var fns []*ssa.Function
+	for _, f := range ctx.srcFuncs("sdf") {
+		if len(f.Blocks) == 0 || f.Name() == "lineIntersect" {
+			continue
+		}
+		calls := false
+		allInstrs(f, func(_ *ssa.BasicBlock, ins ssa.Instruction) {
+			if c, ok := ins.(*ssa.Call); ok {
+				if g := c.Call.StaticCallee(); g != nil && g.Name() == "lineIntersect" && inModule(g) {
+					calls = true
+				}
+			}
+		})
+		if calls {
+			fns = append(fns, f)
+		}
+	}
+	if len(fns) == 0 {
+		r.undecided("W7", "Box2.lineFilter", 0, "no caller of lineIntersect found")
 		return
 	}
+	for _, fn := range fns {
+		clipPrefilterOf(ctx, r, fn)
+	}
+	r.floor("W7", 1)
+}
+
+func clipPrefilterOf(ctx *Ctx, r *Report, fn *ssa.Function) {
 	ev := newEval(ctx, "lineIntersect")
 	ev.evalRoot(fn)
 	es := eventsOf(ev, ".lineIntersect")
-	if len(es) != 1 || ev.Exceeded {
-		r.undecided("W7", "Box2.lineFilter", fn.Pos(), fmt.Sprintf("%d calls of lineIntersect, expected 1", len(es)))
+	if len(es) == 0 || ev.Exceeded {
+		r.undecided("W7", "Box2.lineFilter", fn.Pos(), fmt.Sprintf("%d calls of lineIntersect in %s", len(es), shortFn(fn)))
 		return
 	}
 	e := es[0]
@@ -581,6 +605,17 @@ func checkClipPrefilter(ctx *Ctx, r *Report) {
 		}
 	}
 	box := paramName(fn, 0)
+	// several boxes clipped in one pass (a constant-trip inner loop): every call is unguarded or the rule gives up
+	if len(es) > 1 {
+		for _, e2 := range es {
+			for _, c := range conjuncts(e2.Cond) {
+				if !strings.Contains(c.Key(), "len(") {
+					r.undecided("W7", "Box2.lineFilter", e2.Pos, "several clipper calls with tests in front of them: "+shortKey(c.Key(), 120))
+					return
+				}
+			}
+		}
+	}
 	var guards []*Term
 	for _, c := range conjuncts(e.Cond) {
 		if strings.Contains(c.Key(), "len(") {
